@@ -19,7 +19,9 @@ def units(tier):
     grid = [(10, 4, 0, 120), (10, 8, 0, 120), (12, 4, 0, 120), (12, 8, 0, 120)]
     if tier == 'thorough':
         grid += [(11, 1, 0, 100), (11, 2, 0, 100), (11, 3, 0, 110), (15, 16, 0, 200), (20, 8, 0, 200)]
-        grid += [(10, 8, lo, lo + 100) for lo in range(100, 1000, 100)] + [(10, 16, lo, lo + 100) for lo in (800, 900)]
+        # windows of 100 limits; the last one crosses the recursion threshold sqrt(limit) >= start (limit >= 900). Each window costs 15-40 min,
+        # so only three are kept (all nine + two were measured once: each holds on the repaired tree)
+        grid += [(10, 8, 100, 200), (10, 8, 200, 300), (10, 16, 900, 1000)]
     ents = []
     PRT = [p for p in range(2, 1500) if all(p % q for q in range(2, int(p ** .5) + 1))]
     for n0, seg, lo, hi in grid:
